@@ -321,6 +321,102 @@ theorem rwvm_outside_refused (p : Params) (st : Stages) (first last m b : Rat) (
     folded p st s = .error .value := by
   simp only [folded, build, applyEff, hp, h1, ↓reduceIte, hs]
 
+
+/-- **VOI LUT behind an integer rescale (any integer slope m != 0, negative included)** - full statement for
+*every* stored value, the ones mapped below and above the table included: the table `T[::|m|]` the current
+source builds (reversed first for m < 0, final entry re-appended when the stride skips it, first stored
+value `(first - b) / m` resp. `(first + n - 1 - b) / m`) looked up at the stored value is the VOI LUT of the
+standard looked up at `m s + b`, scaled and inverted.  `hb`: the library accepts the combination (integer
+slope and intercept, table start on an integer stored value); before the fixes e20cbdf / cd96c3e / adab703
+in /repo this failed for non-integer slopes, for m not dividing n - 1 and for every negative slope. -/
+theorem fold_rescale_voilut (p : Params) (st : Stages) (m b : Rat) (vfirst : Int) (a : Nat) (t : List Nat)
+    (mn mx : Nat) (s : Int) (e : Eff)
+    (hp : p.modality = .rescale m b) (hv : p.voi = .lut vfirst (a :: t))
+    (hmn : listMin (a :: t) = some mn) (hmx : listMax (a :: t) = some mx) (hne : mx ≠ mn)
+    (h1 : st.rwvm = false) (h2 : st.modality = true) (h3 : st.voi = true)
+    (hb : build p st = .ok e) :
+    folded p st s = ref p st s := by
+  have hsc := scaledLut_eq a t mn mx p.lo p.hi st.invert hmn hmx hne
+  simp only [build, hp, hv, h1, h2, h3, Bool.false_eq_true, ↓reduceIte] at hb
+  by_cases hm0 : m = 0
+  · simp [hm0] at hb
+  simp only [hm0, ↓reduceIte, hsc] at hb
+  cases hf : foldVoiLut m b ((a :: t).length : Int) vfirst with
+  | error err => rw [hf] at hb; cases hb
+  | ok r =>
+    obtain ⟨rev, step, app, fo⟩ := r
+    rw [hf] at hb
+    simp only [Except.ok.injEq] at hb
+    obtain ⟨mi, bi, rfl, rfl, hmi, hrev, hstep, happ, hfo⟩ := foldVoiLut_ok _ _ _ _ _ _ _ _ hm0 hf
+    have hfolded : folded p st s = applyEff p.lo p.hi e s := by
+      simp only [folded, build, hp, hv, h1, h2, h3, Bool.false_eq_true, ↓reduceIte, hm0, hsc, hf, hb]
+    rw [hfolded, ← hb]
+    simp only [applyEff]
+    rw [applyLut_map, applyLut_eq_refLookup]
+    have hlen : ((List.map (scaledEntry mn mx p.lo p.hi st.invert) (a :: t)).length : Int) = ((a :: t).length : Int) := by
+      simp
+    have key := folded_table_lookup (List.map (scaledEntry mn mx p.lo p.hi st.invert) (a :: t)) (by simp) mi bi vfirst fo s hmi
+      (by rw [hlen]; exact hfo)
+    simp only [hlen] at key
+    rw [← happ, ← hrev, ← hstep] at key
+    rw [key, refLookup_map]
+    -- the reference side
+    simp only [ref, h1, h2, h3, hp, hv, refModality, Bool.false_eq_true, ↓reduceIte]
+    have hz : (mi : Rat) * (s : Rat) + (bi : Rat) = ((mi * s + bi : Int) : Rat) := by push_cast; ring
+    rw [hz, refVoi_lut_intZ vfirst a t mn mx p.lo p.hi _ hmn hmx hne]
+    cases refLookup (a :: t) vfirst (mi * s + bi) with
+    | error err => rfl
+    | ok v => cases st.invert <;> simp [scaledEntry, invertOut]
+
+/-- VOI LUT without modality transform (identity rescale) -/
+theorem fold_voilut_unscaled (p : Params) (st : Stages) (vfirst : Int) (a : Nat) (t : List Nat)
+    (mn mx : Nat) (s : Int)
+    (hv : p.voi = .lut vfirst (a :: t))
+    (hmn : listMin (a :: t) = some mn) (hmx : listMax (a :: t) = some mx) (hne : mx ≠ mn)
+    (h1 : st.rwvm = false) (h2 : st.modality = false) (h3 : st.voi = true) :
+    folded p st s = ref p st s := by
+  have hsc := scaledLut_eq a t mn mx p.lo p.hi st.invert hmn hmx hne
+  have h10 : (1 : Rat) ≠ 0 := one_ne_zero
+  cases hf : foldVoiLut 1 0 ((a :: t).length : Int) vfirst with
+  | error err =>
+    -- slope 1, intercept 0 is always accepted
+    exfalso
+    have := foldVoiLut_int 1 0 ((a :: t).length : Int) vfirst
+    simp only [Int.cast_one, Int.cast_zero] at this
+    rw [this] at hf
+    simp at hf
+  | ok r =>
+    obtain ⟨rev, step, app, fo⟩ := r
+    obtain ⟨mi, bi, hmi1, hbi0, hmi, hrev, hstep, happ, hfo⟩ := foldVoiLut_ok _ _ _ _ _ _ _ _ h10 hf
+    have hmi' : mi = 1 := by exact_mod_cast hmi1.symm
+    have hbi' : bi = 0 := by exact_mod_cast hbi0.symm
+    subst hmi' hbi'
+    simp only [folded, build, hv, h1, h2, h3, Bool.false_eq_true, ↓reduceIte, h10, hsc, hf, applyEff]
+    rw [applyLut_map, applyLut_eq_refLookup]
+    have hlen : ((List.map (scaledEntry mn mx p.lo p.hi st.invert) (a :: t)).length : Int) = ((a :: t).length : Int) := by
+      simp
+    have key := folded_table_lookup (List.map (scaledEntry mn mx p.lo p.hi st.invert) (a :: t)) (by simp) 1 0 vfirst fo s hmi
+      (by rw [hlen]; exact hfo)
+    simp only [hlen] at key
+    rw [← happ, ← hrev, ← hstep] at key
+    rw [key, refLookup_map]
+    simp only [ref, h1, h2, h3, hv, refModality, Bool.false_eq_true, ↓reduceIte]
+    have hz : (s : Rat) = ((1 * s + 0 : Int) : Rat) := by push_cast; ring
+    rw [hz, refVoi_lut_intZ vfirst a t mn mx p.lo p.hi _ hmn hmx hne]
+    cases refLookup (a :: t) vfirst (1 * s + 0) with
+    | error err => rfl
+    | ok v => cases st.invert <;> simp [scaledEntry, invertOut]
+
+/-- A non-integer slope or intercept in front of a VOI LUT is refused (the table cannot be folded onto stored
+values); the guard `not (intercept.is_integer() and slope.is_integer())` as translated from the source. -/
+theorem rescale_voilut_nonint_refused (p : Params) (st : Stages) (m b : Rat) (vfirst : Int) (vdata : List Nat) (s : Int)
+    (hp : p.modality = .rescale m b) (hv : p.voi = .lut vfirst vdata)
+    (h1 : st.rwvm = false) (h2 : st.modality = true) (h3 : st.voi = true)
+    (hni : ¬ (b = ((Rat.floor b : Int) : Rat) ∧ m = ((Rat.floor m : Int) : Rat))) :
+    folded p st s = .error .value := by
+  simp only [folded, build, hp, hv, h1, h2, h3, Bool.false_eq_true, ↓reduceIte, foldVoiLut_nonint m b _ vfirst hni]
+  split_ifs <;> rfl
+
 /-! ## Clause: lookup-table objects return the table they were given -/
 
 /-- `LUT.__init__` accepts exactly: 0 <= first mapped value < 2^16, 1..65536 entries of uint8 / uint16. -/
@@ -475,5 +571,40 @@ theorem frames_eq_frame {ρ μ ω β} (im : Meta ρ μ ω) (useRw useMod useVoi 
       simp only [Bool.and_eq_true] at hall ⊢
       rw [opt_find_stable _ useMod n f h2 h0 hfn hall.1, opt_find_stable _ useVoi n f h3 h0 hfn hall.2]
   · simp [hall]
+
+/-! ## Non-vacuity: concrete inputs meeting the hypotheses (evaluated in the kernel) -/
+
+/-- rescale 2 s - 5, LINEAR window centre 40 width 17 (the witness of the fixed defect babe92f): stored 20
+-> modality 35 -> ((35 - 39.5) / 16 + 0.5) = 7/32 -/
+def exWindow : Params :=
+  { modality := .rescale 2 (-5), voi := .window .linear 40 17, rwvm := .none, imin := 0, imax := 65535, lo := 0, hi := 1 }
+def exStages : Stages := ⟨false, true, true, false, false, false⟩
+
+example : folded exWindow exStages 20 = .ok (.val (7/32)) ∧ ref exWindow exStages 20 = .ok (.val (7/32)) := by
+  decide +kernel
+example : folded exWindow exStages 20 = ref exWindow exStages 20 :=
+  fold_window_linear exWindow exStages 2 (-5) 40 17 20 rfl rfl (by decide) (by decide +kernel) (by decide +kernel) rfl rfl rfl
+
+/-- rescale -2 s + 20 in front of a 4-entry VOI LUT starting at 3 (witness of adab703): stored 4..9 ->
+modality 12, 10, 8, 6, 4, 2 -> entries 3, 3, 3, 3, 1, 0 -/
+def exVoiLut : Params :=
+  { modality := .rescale (-2) 20, voi := .lut 3 [0, 16, 32, 64], rwvm := .none, imin := 0, imax := 255, lo := 0, hi := 1 }
+
+example : List.map (folded exVoiLut exStages) [4, 5, 6, 7, 8, 9]
+    = [.ok (.val 1), .ok (.val 1), .ok (.val 1), .ok (.val 1), .ok (.val (1/4)), .ok (.val 0)] := by decide +kernel
+example : (toOpt (build exVoiLut exStages)).isSome = true := by decide +kernel
+example : listMin [0, 16, 32, 64] = some 0 ∧ listMax [0, 16, 32, 64] = some 64 := by decide
+
+/-- the flag table is not vacuous: defaults on a monochrome image with every transform present apply the
+real-world value map only; `apply_real_world_transform=False` gives modality + inversion -/
+example : stageOutcome ⟨.n, .n, .f, .n, .n, true⟩ .mono ⟨true, true, true, false, true⟩
+    = .ok ⟨true, false, false, false, false, false⟩ := by decide +kernel
+example : stageOutcome ⟨.f, .n, .f, .n, .n, true⟩ .mono ⟨true, true, true, false, true⟩
+    = .ok ⟨false, true, false, true, false, false⟩ := by decide +kernel
+example : stageOutcome ⟨.t, .n, .n, .n, .n, true⟩ .mono ⟨true, true, true, false, true⟩
+    = .ok ⟨true, false, false, false, false, false⟩ := by decide +kernel
+example : lutInit 5 8 [7, 8, 9] = .ok ⟨[3, 5, 8], [7, 8, 9, 0]⟩ := by decide +kernel
+example : selectWindow [600, 40] [1500, 400] (some ["LUNG", "SOFT"]) (.str "SOFT") = some (40, 400) := by decide +kernel
+example : selectWindow [600, 40] [1500, 400] none (.idx (-1)) = some (40, 400) := by decide +kernel
 
 end HdVerif.C06
